@@ -670,7 +670,19 @@ def run(ctx):
         tmacro.check(ctx, r8, rid="R8")
     except _absint.Unknown as u:
         r8.viol("R8:undecided", "t_macro_inner cannot be interpreted on the current code (%s): not decided on this tree (fail closed)" % str(u)[:300])
-    return rules + [r4_emission(ctx), r5_pairing(ctx), r6_display(ctx), r7, r8]
+    # `$t(key, {args})`: the values written in the source replace the variables of the referenced value (also through a chain
+    # of references): the substitution clause of C06.R0 (rules/fkeval.py)
+    from rules import c06, c03
+    k0, _ok, _why = c06.r0_substitution(ctx)
+    r9 = borrow(k0, "C01.R9", "arguments written in `$t(key, {..})` replace the variables of the referenced value",
+                "`every {{ var }} replaced by the supplied value`: for a foreign key the supplied value is the one written in the translation source; "
+                "substitution that stops at a nested reference leaves the variable in place and loses the written value", only=r"populate", floor=1)
+    # the text comes from the key's own locale whenever that locale has a value - the empty string included; only an absent
+    # or null key falls back: Locale::merge evaluated on concrete values (rules/localemerge.py, shared with C03.R2)
+    r10 = borrow(c03.r2_recording(ctx, prog), "C01.R10", "a locale's own value is kept by the merge, the empty string included",
+                 "`the text is exactly the translation written for that key in the effective locale; nothing is ... taken from another locale`: a merge "
+                 "that treats some written values (e.g. \"\") as untranslated renders another locale's text", only=r"Locale::merge", floor=1)
+    return rules + [r4_emission(ctx), r5_pairing(ctx), r6_display(ctx), r7, r8, r9, r10]
 
 
 MANIFEST_ENTRY = {
